@@ -127,15 +127,15 @@ PROPS = {
         "assumptions": ["order-dependent cases (C11) are left to C11"],
     },
     "C14": {
-        "module": "BiscuitModel.Props.C14Blocks",
-        "more_modules": ["BiscuitModel.Props.C14Rules", "BiscuitModel.Props.C14Expr", "BiscuitModel.Props.C14Terms", "BiscuitModel.Props.C14"],
+        "module": "BiscuitModel.Props.C14Fuel",
+        "more_modules": ["BiscuitModel.Props.C14Blocks", "BiscuitModel.Props.C14Rules", "BiscuitModel.Props.C14Expr", "BiscuitModel.Props.C14Terms", "BiscuitModel.Props.C14"],
         "streams": ["print", "termparse", "exprparse", "itemparse", "blockparse"],
-        "level_text": "Lean 4 theorems about an executable model of both printer families (Model/Printer), of the expression parser (Model/ExprParser: expr .. expr9, expr_term, unary_negate, unary_parens, binary_method, unary_method, term - the left-associative many0 levels, the non-associative comparison level that swallows failures, ! over a level-6 operand, method chains, closures, the lazy operators' parameterless closures), of the rule / check / policy parsers (Model/RuleParser: predicate, rule_body, scopes, check_body, check, policy, rule_inner with validate_variables) of parse_block_source / parse_source (Model/BlockParser: the optional `trusting ...;` line, the statement loop with its alternatives in the order of the code, `;` or end of input after each, comments) and of the term / fact parser: block_round_trip (Props/C14Blocks: the model of parse_block_source, run on the text print_block_source / the BlockBuilder display write for ANY block of the grammar - optional trusting line, facts, rules, checks, each closed by `;` and a line break - returns the block's scopes, facts, rules and checks in order; a statement starting with a predicate is never taken for a trusting line, whatever the predicate is called: no_keyword_pred, true since the repair /repo c0eecb2 which stating this theorem brought about; printBlock_eq_blockC), check_rt, policy_rt, rule_rt, body_rt (Props/C14Rules: a printed check, policy or rule - predicates with variables, expressions, `trusting` lists with authority / previous / public keys / parameters, any number of `or` alternatives - is read back by the model of check_inner / policy_inner / rule_inner as exactly that item, whatever follows that does not continue it; an expression element is never taken for a predicate: notPred_expr; printBody_eq_bodyC / printRule_eq / printCheck_eq: the texts of these theorems are what the printer model writes), expr_round_trip (for EVERY expression tree of the grammar - wfE: operands at the levels the grammar gives them, left-nested chains of any length, explicit Parens nodes where the levels require them, negation, method calls chained on level-9 receivers, .all / .any closures, nested to any depth - and every following text that does not continue the expression, the parser model run on the printed tree returns exactly that tree and leaves exactly that text; proved through the loop invariants Star / MStar of the operator and method loops, the false starts | of || and & of && included; expr_round_trip is about the function the exprparse stream runs: needE_le), showTree_eq_showC (the character-level printer of that theorem is the infix rendering that Expression::print produces, printExpr_opcodes); and of the term / fact parser (Model/TermParser: fact_inner, name, term_in_fact, term_in_set, parameter, string, date, integer, bytes, boolean, null, array, parse_map, map_key, set, with nom's alt / cut / separated_list / multispace0 written out and the two error classes Error / Failure kept apart): fact_round_trip (for EVERY fact the grammar derives - valid names, 64-bit integers, any strings, non-empty byte strings, homogeneous sets, arrays, maps, parameters, nested to any depth, the one ambiguous printed form {true} / {null} / {hex:..} excluded - and EVERY text that follows it, the parser model run on the printed fact returns exactly that fact and leaves exactly that text; by mutual structural induction over the term, with the fuel the driver uses proved sufficient: needT_le / needL_le), printPred_eq_predC (the character-level printer of that theorem is the printer model compared with Display), and the lexeme theorems it is built from: string_lit_round_trip (for EVERY string - quotes, backslashes, newlines, any scalar value - and every continuation of the text, the string parser reads the printed literal back as exactly that string and stops right after its closing quote: no string value can make printed text parse as different code), hex_round_trip and int_round_trip (the same for every non-empty byte string and every 64-bit integer, given that the next character is not a digit of that literal), postfix_print_infix / printExpr_opcodes (Expression::print, a stack machine over postfix ops with nested closure bodies, renders the op list of ANY expression tree as that tree's infix text, so the only parentheses printed are the explicit Parens nodes), and singleton_set_prints_as_parameter (the printer is not injective: the witness of the known finding). Tie: stream print - facts, rules, checks, policies, block sources and authorizer dumps generated over every term type, nested collections, every operator and method, closures, scopes with both key algorithms, strings over the full scalar range; the model's text is compared with Display of the builder item, with Biscuit::print_block_source (SymbolTable printers) and with the BlockBuilder Display; an implementation-only oracle requires that the real parser accepts the printed text and returns a structurally identical item (for blocks: identical serialized block after print_block_source -> BlockBuilder::code -> build; for authorizers: identical snapshot after dump_code -> AuthorizerBuilder::code). A third of the expression-bearing items are the parser's own output on text printed with parentheses left out at random, i.e. ASTs the grammar derives by construction.",
-        "level_note": "Partial: for facts and all terms the inverse direction is a theorem (fact_round_trip) about the parser model that the termparse stream runs against the real fact_inner on printed, re-spaced, mutated and random text (result, rest of input and nom error class must agree); for expressions it is a theorem too (expr_round_trip, about the model that the exprparse stream runs against the real expr); for rule bodies, rules, checks and policies it is a theorem as well (check_rt, policy_rt, rule_rt, about the models that the itemparse stream runs against rule_body / check_body / rule_inner / check / policy on printed, mutated and random texts); for whole blocks too (block_round_trip, about the model that the blockparse stream runs against parse_block_source / parse_source); for authorizers (dump_code read by parse_source) it is decided per generated item by running the real parser (oracle). RFC 3339 parsing is the time crate: a parameter of the model, supplied per case by the harness calling time directly; the theorem assumes that it accepts only tokens shaped YYYY-... (checked on every table) and that it reads each printed date of the term back (dateOK, part of the well-formedness check). Sets and maps are compared as sets / maps (BTreeSet / BTreeMap collection is not modelled). Dates are printed by an executable RFC 3339 formatter in the model that is validated by the stream only. Items that contain unbound {parameters} are outside this property's stream (C20).",
+        "level_text": "Lean 4 theorems about an executable model of both printer families (Model/Printer), of the expression parser (Model/ExprParser: expr .. expr9, expr_term, unary_negate, unary_parens, binary_method, unary_method, term - the left-associative many0 levels, the non-associative comparison level that swallows failures, ! over a level-6 operand, method chains, closures, the lazy operators' parameterless closures), of the rule / check / policy parsers (Model/RuleParser: predicate, rule_body, scopes, check_body, check, policy, rule_inner with validate_variables) of parse_block_source / parse_source (Model/BlockParser: the optional `trusting ...;` line, the statement loop with its alternatives in the order of the code, `;` or end of input after each, comments) and of the term / fact parser: parseBlockSource_round_trip / parseSource_round_trip (Props/C14Fuel: the two theorems below with the driver's own fuel, 50 * length + 50 and length + 2 loop turns, proved sufficient for every text the printer writes - needVs_le, needBody_le, needBodies_le; rule_round_trip / check_round_trip / policy_round_trip the same for single items), source_round_trip (Props/C14Blocks: the model of parse_source returns ANY dump_code text of the grammar - facts, rules, checks, policies, a blank line after each non-empty section; section_loop, element_policy, printAuthorizer_eq_sourceC), block_round_trip (Props/C14Blocks: the model of parse_block_source, run on the text print_block_source / the BlockBuilder display write for ANY block of the grammar - optional trusting line, facts, rules, checks, each closed by `;` and a line break - returns the block's scopes, facts, rules and checks in order; a statement starting with a predicate is never taken for a trusting line, whatever the predicate is called: no_keyword_pred, true since the repair /repo c0eecb2 which stating this theorem brought about; printBlock_eq_blockC), check_rt, policy_rt, rule_rt, body_rt (Props/C14Rules: a printed check, policy or rule - predicates with variables, expressions, `trusting` lists with authority / previous / public keys / parameters, any number of `or` alternatives - is read back by the model of check_inner / policy_inner / rule_inner as exactly that item, whatever follows that does not continue it; an expression element is never taken for a predicate: notPred_expr; printBody_eq_bodyC / printRule_eq / printCheck_eq: the texts of these theorems are what the printer model writes), expr_round_trip (for EVERY expression tree of the grammar - wfE: operands at the levels the grammar gives them, left-nested chains of any length, explicit Parens nodes where the levels require them, negation, method calls chained on level-9 receivers, .all / .any closures, nested to any depth - and every following text that does not continue the expression, the parser model run on the printed tree returns exactly that tree and leaves exactly that text; proved through the loop invariants Star / MStar of the operator and method loops, the false starts | of || and & of && included; expr_round_trip is about the function the exprparse stream runs: needE_le), showTree_eq_showC (the character-level printer of that theorem is the infix rendering that Expression::print produces, printExpr_opcodes); and of the term / fact parser (Model/TermParser: fact_inner, name, term_in_fact, term_in_set, parameter, string, date, integer, bytes, boolean, null, array, parse_map, map_key, set, with nom's alt / cut / separated_list / multispace0 written out and the two error classes Error / Failure kept apart): fact_round_trip (for EVERY fact the grammar derives - valid names, 64-bit integers, any strings, non-empty byte strings, homogeneous sets, arrays, maps, parameters, nested to any depth, the one ambiguous printed form {true} / {null} / {hex:..} excluded - and EVERY text that follows it, the parser model run on the printed fact returns exactly that fact and leaves exactly that text; by mutual structural induction over the term, with the fuel the driver uses proved sufficient: needT_le / needL_le), printPred_eq_predC (the character-level printer of that theorem is the printer model compared with Display), and the lexeme theorems it is built from: string_lit_round_trip (for EVERY string - quotes, backslashes, newlines, any scalar value - and every continuation of the text, the string parser reads the printed literal back as exactly that string and stops right after its closing quote: no string value can make printed text parse as different code), hex_round_trip and int_round_trip (the same for every non-empty byte string and every 64-bit integer, given that the next character is not a digit of that literal), postfix_print_infix / printExpr_opcodes (Expression::print, a stack machine over postfix ops with nested closure bodies, renders the op list of ANY expression tree as that tree's infix text, so the only parentheses printed are the explicit Parens nodes), and singleton_set_prints_as_parameter (the printer is not injective: the witness of the known finding). Tie: stream print - facts, rules, checks, policies, block sources and authorizer dumps generated over every term type, nested collections, every operator and method, closures, scopes with both key algorithms, strings over the full scalar range; the model's text is compared with Display of the builder item, with Biscuit::print_block_source (SymbolTable printers) and with the BlockBuilder Display; an implementation-only oracle requires that the real parser accepts the printed text and returns a structurally identical item (for blocks: identical serialized block after print_block_source -> BlockBuilder::code -> build; for authorizers: identical snapshot after dump_code -> AuthorizerBuilder::code). A third of the expression-bearing items are the parser's own output on text printed with parentheses left out at random, i.e. ASTs the grammar derives by construction.",
+        "level_note": "Partial: for facts and all terms the inverse direction is a theorem (fact_round_trip) about the parser model that the termparse stream runs against the real fact_inner on printed, re-spaced, mutated and random text (result, rest of input and nom error class must agree); for expressions it is a theorem too (expr_round_trip, about the model that the exprparse stream runs against the real expr); for rule bodies, rules, checks and policies it is a theorem as well (check_rt, policy_rt, rule_rt, about the models that the itemparse stream runs against rule_body / check_body / rule_inner / check / policy on printed, mutated and random texts); for whole blocks and whole authorizers too (parseBlockSource_round_trip / parseSource_round_trip in Props/C14Fuel, about the functions the blockparse stream runs against parse_block_source / parse_source, with the fuel the driver uses proved sufficient for every printed text). What stays outside the theorems is the tie itself and the time crate. RFC 3339 parsing is the time crate: a parameter of the model, supplied per case by the harness calling time directly; the theorem assumes that it accepts only tokens shaped YYYY-... (checked on every table) and that it reads each printed date of the term back (dateOK, part of the well-formedness check). Sets and maps are compared as sets / maps (BTreeSet / BTreeMap collection is not modelled). Dates are printed by an executable RFC 3339 formatter in the model that is validated by the stream only. Items that contain unbound {parameters} are outside this property's stream (C20).",
         "rule": "print stream: corpus (fixed findings and the known one) first, then seeded items; non-trivial = the item contains a quote or backslash inside a string, an operator, a map, or a scope; termparse / exprparse / itemparse / blockparse streams: printed items (with a tail), re-spaced, 1-3 character mutations (statements, separators and comments inserted for blocks), token soup; non-trivial = the text contains a bracket or brace / an operator, dot or parenthesis / a comma, `or` or `trusting`; distinct = distinct case JSON",
         "trusted_base": ["harness/src/s_print.rs (generator, AST<->JSON, structural comparison)", "harness/src/s_termparse.rs, s_exprparse.rs, s_itemparse.rs, s_blockparse.rs (text generators, date table computed with the time crate)", "tools/props.py cmp_print (texts compared modulo the order of set and map elements), oracle_print, cmp_termparse (sets and maps compared as such)", "lean/Codec.lean, lean/Driver.lean"],
         "assumptions": [],
-        "open_obligations": ["parse (print x) = x for authorizers (parse_source on dump_code: sections separated by blank lines, policies) as a theorem - proved for facts, expressions, rules, checks, policies and whole blocks; parse_source is modelled and tied by the blockparse stream", "that the fuel the driver passes to the rule-level parsers (50 * length + 50) is enough for every printed item is proved for facts and expressions (needT_le, needE_le), not for rules / checks / policies (the theorems hold for every sufficient fuel; an insufficient one would show as a disagreement on the itemparse stream)"],
+        "open_obligations": [],
     },
     "C15": {
         "module": "BiscuitModel.Props.C15",
